@@ -644,7 +644,7 @@ pub fn run(rep: &mut Report) {
     let full = alphabet_full();
     let reduced = alphabet_reduced();
     let ops_by_level: Vec<Vec<Op>> = if thorough {
-        vec![full.clone(), full.clone(), full.clone(), full.clone(), reduced.clone(), reduced.clone()]
+        vec![full.clone(), full.clone(), reduced.clone(), reduced.clone(), reduced.clone(), reduced.clone()]
     } else {
         vec![full.clone(), full.clone(), full.clone(), full.clone()]
     };
